@@ -8,6 +8,7 @@ From Coq Require Import List Arith ZArith Bool Orders.
 From MM Require Import lib.ListSet lib.Values model.Heap model.Elig model.SearchParams model.SearchDefs model.Search
   proofs.HeapProofs proofs.HistoryProofs proofs.OrderIso.
 Import ListNotations.
+From MM Require Import gen.Gen_HeapDict gen.Gen_Exhaustive gen.Gen_Results proofs.ResultsBridge.
 
 Theorem C10_filled_ranges_do_not_change_treatment_sizes :
   forall (V : Type) (es : list elig) (par : spar V),
@@ -37,3 +38,11 @@ Proof. intros. split; reflexivity. Qed.
 Print Assumptions C10_filled_ranges_do_not_change_treatment_sizes.
 Print Assumptions C10_filled_copy_keeps_every_other_field.
 Print Assumptions C10_result_retrieval_is_pure.
+
+(* search_results as regenerated on this run reads nothing but the stored heap and the geo index, and is the
+   image of the heap snapshot: retrieving twice returns the same designs *)
+Theorem C10_translated_search_results_reads_only_the_heap :
+  forall (K G : Type) (ltk : K -> K -> bool) (geo_id : nat -> G) hd,
+    gen_search_results ltk geo_id hd = ids_of geo_id (GenHeapDict.gen_get_result ltk des_key hd).
+Proof. exact @gen_search_results_is_image. Qed.
+Print Assumptions C10_translated_search_results_reads_only_the_heap.
